@@ -9,47 +9,93 @@ fn row(icao: u32, age: i64) -> Plane {
     p
 }
 
+fn row_ns(icao: u32, age: i64, nanos: u32) -> Plane {
+    let mut p = Plane::new();
+    p.icao = icao;
+    p.timestamp = stamp_ns(age, nanos);
+    p
+}
+
 // @harness props=C12,C01 tier=quick cap=900
-// one `cleanup` call on a table of three rows with arbitrary last-contact ages (both sides of and
-// exactly at the limit), arbitrary delete_after in 1..=40000 s and arbitrary sweep counter 0..=11:
-// a sweep happens iff the counter exceeds 10, removes exactly the rows silent for >= delete_after
-// whole seconds, and the counter stays in 0..=11 (=> at most 11 frames between sweeps)
+// one `cleanup` call on a table of three rows with arbitrary last-contact times (whole seconds AND
+// sub-second parts on both sides of the sweep instant's), arbitrary delete_after in 1..=40000 s and
+// arbitrary sweep counter 0..=11: a sweep happens iff the counter exceeds 10, removes exactly the rows
+// silent for >= delete_after WHOLE seconds, and the counter stays in 1..=11 (=> at most 11 frames
+// between sweeps)
 #[cfg_attr(kani, kani::proof)]
 #[cfg_attr(kani, kani::unwind(8))]
-#[cfg_attr(kani, kani::stub(chrono::Utc::now, crate::verif::rt::stub_now))]
+#[cfg_attr(kani, kani::stub(chrono::Utc::now, crate::verif::rt::stub_now_half))]
 #[cfg_attr(verif_replay, test)]
 fn c12_cleanup_step() {
     let (k0, k1, k2) = (any_below(1 << 24), any_below(1 << 24), any_below(1 << 24));
     assume(k0 != 0 && k1 != 0 && k2 != 0 && k0 != k1 && k0 != k2 && k1 != k2);
     let (a0, a1, a2) = (any_i64(), any_i64(), any_i64());
-    assume(a0 >= 0 && a0 <= 41000 && a1 >= 0 && a1 <= 41000 && a2 >= 0 && a2 <= 41000);
+    assume(a0 >= 1 && a0 <= 41000 && a1 >= 1 && a1 <= 41000 && a2 >= 1 && a2 <= 41000);
+    let (n0, n1, n2) = (any_nanos(), any_nanos(), any_nanos());
     let delete_after = any_i64();
     assume(delete_after >= 1 && delete_after <= 40000);
     let count = any_below(12);
     let mut planes = Planes::new();
     {
         let mut t = planes.aircrafts.write().unwrap();
-        t.insert(k0, row(k0, a0));
-        t.insert(k1, row(k1, a1));
-        t.insert(k2, row(k2, a2));
+        t.insert(k0, row_ns(k0, a0, n0));
+        t.insert(k1, row_ns(k1, a1, n1));
+        t.insert(k2, row_ns(k2, a2, n2));
     }
     let mut st = AppCounters::from_update_interval(3);
     st.cleanup_count = count;
-    let now = now();
+    let now = now_half();
     planes.cleanup(&mut st, now, delete_after);
     let t = planes.aircrafts.read().unwrap();
     let (h0, h1, h2) = (t.get(&k0).is_some(), t.get(&k1).is_some(), t.get(&k2).is_some());
-    vcover!(count > 10 && a0 == delete_after, "sweep with a row exactly at the limit");
-    vcover!(count > 10 && a1 == delete_after - 1 && a2 > delete_after, "sweep with rows on both sides");
-    vcover!(count <= 10 && a0 > delete_after, "no sweep although a row is stale");
+    let (e0, e1, e2) = (elapsed_whole(a0, n0), elapsed_whole(a1, n1), elapsed_whole(a2, n2));
+    vcover!(count > 10 && e0 == delete_after, "sweep with a row exactly at the limit");
+    vcover!(count > 10 && e1 == delete_after - 1 && n1 > HALF && e2 > delete_after, "sweep with rows on both sides, later sub-second part");
+    vcover!(count <= 10 && e0 > delete_after, "no sweep although a row is stale");
     vassert!(st.cleanup_count <= 11 && st.cleanup_count >= 1, "C12: sweep counter leaves 1..=11");
     if count > 10 {
         vassert!(st.cleanup_count == 1, "C12: counter not restarted by a sweep");
-        vassert!(h0 == (a0 < delete_after) && h1 == (a1 < delete_after) && h2 == (a2 < delete_after),
+        vassert!(h0 == (e0 < delete_after) && h1 == (e1 < delete_after) && h2 == (e2 < delete_after),
             "C12: a sweep must keep exactly the rows heard less than delete_after whole seconds ago");
     } else {
         vassert!(st.cleanup_count == count + 1, "C12: counter must advance by one per accepted frame");
         vassert!(h0 && h1 && h2, "C12: rows removed outside a sweep");
     }
     vassert!(t.len() == h0 as usize + h1 as usize + h2 as usize, "C12: table holds rows that were never inserted");
+}
+
+// @harness props=C19,C12 tier=quick cap=1200
+// the sweep under two option sets that differ in the refresh interval (-u) - the only presentation
+// option that reaches the counters object handed to `cleanup` - removes the same rows: two tables holding
+// the same row (arbitrary age), arbitrary sweep counter, arbitrary delete_after, -u arbitrary on each
+// side (incl. -1 and values larger than delete_after). (One row per table keeps the counterexample
+// trace small enough for kani-driver to parse.)
+#[cfg_attr(kani, kani::proof)]
+#[cfg_attr(kani, kani::unwind(8))]
+#[cfg_attr(kani, kani::stub(chrono::Utc::now, crate::verif::rt::stub_now))]
+#[cfg_attr(verif_replay, test)]
+fn c19_cleanup_refresh_interval_neutral() {
+    let k0 = any_below(1 << 24);
+    assume(k0 != 0);
+    let a0 = any_i64();
+    assume(a0 >= 0 && a0 <= 41000);
+    let delete_after = any_i64();
+    assume(delete_after >= 1 && delete_after <= 40000);
+    let count = any_below(12);
+    let (u1, u2) = (any_i64(), any_i64());
+    assume(u1 >= -1 && u1 <= 40000 && u2 >= -1 && u2 <= 40000);
+    let (mut p1, mut p2) = (Planes::new(), Planes::new());
+    p1.aircrafts.write().unwrap().insert(k0, row(k0, a0));
+    p2.aircrafts.write().unwrap().insert(k0, row(k0, a0));
+    let (mut s1, mut s2) = (AppCounters::from_update_interval(u1), AppCounters::from_update_interval(u2));
+    s1.cleanup_count = count;
+    s2.cleanup_count = count;
+    let now = now();
+    p1.cleanup(&mut s1, now, delete_after);
+    p2.cleanup(&mut s2, now, delete_after);
+    let (t1, t2) = (p1.aircrafts.read().unwrap(), p2.aircrafts.read().unwrap());
+    vcover!(count > 10 && u1 != u2 && a0 >= delete_after, "a sweep that removes the row, different -u");
+    vcover!(count > 10 && u1 > delete_after && u2 == 3 && a0 < delete_after, "refresh interval larger than delete_after on one side, row kept");
+    vassert!(t1.get(&k0).is_some() == t2.get(&k0).is_some(), "C19: which aircraft stay in the table depends on the refresh interval -u");
+    vassert!(s1.cleanup_count == s2.cleanup_count, "C19: the sweep cadence depends on the refresh interval -u");
 }
